@@ -41,6 +41,18 @@ theorem noType_append (A : List (QN × Str)) (h : ∀ kv ∈ A, kv.1 ≠ xsiType
 
 /-! ### the params left by the attributes -/
 
+theorem attrParamOf_name {cfg : SerCfg} {fields : List (Str × Val)} {var : XmlVar} {nv : Str × Val}
+    (h : attrParamOf cfg fields var = some nv) : nv.1 = var.name := by
+  unfold attrParamOf at h
+  split at h
+  · split at h
+    · cases h
+    · cases h; rfl
+  · split at h
+    · simp only [Option.map_eq_some_iff] at h
+      obtain ⟨_, _, rfl⟩ := h; rfl
+    · cases h
+
 theorem attrParamsN_get_none (cfg : SerCfg) (fields : List (Str × Val)) {k : Str} :
     ∀ vars : List XmlVar, k ∉ vars.map (·.name) → (attrParamsN cfg vars fields).get k = none := by
   intro vars
@@ -50,18 +62,17 @@ theorem attrParamsN_get_none (cfg : SerCfg) (fields : List (Str × Val)) {k : St
     intro hk
     simp only [List.map_cons, List.mem_cons, not_or] at hk
     simp only [attrParamsN, List.filterMap_cons]
-    cases attrOfN cfg fields v with
+    cases hp : attrParamOf cfg fields v with
     | none => exact ih hk.2
-    | some p =>
-      simp only [Option.map_some]
-      rw [Params.get_cons]
+    | some nv =>
+      simp only []
+      rw [Params.get_cons, attrParamOf_name hp]
       simp only [Ne.symm hk.1, if_false]
       exact ih hk.2
 
 theorem attrParamsN_get (cfg : SerCfg) (fields : List (Str × Val)) :
     ∀ vars : List XmlVar, (vars.map (·.name)).Nodup → ∀ var ∈ vars,
-      (attrParamsN cfg vars fields).get var.name =
-        (attrOfN cfg fields var).map (fun _ => look fields var.name) := by
+      (attrParamsN cfg vars fields).get var.name = (attrParamOf cfg fields var).map (·.2) := by
   intro vars
   induction vars with
   | nil => intro _ var hv; cases hv
@@ -70,68 +81,153 @@ theorem attrParamsN_get (cfg : SerCfg) (fields : List (Str × Val)) :
     simp only [List.map_cons, List.nodup_cons] at hnd
     rcases List.mem_cons.1 hvar with rfl | hvt
     · simp only [attrParamsN, List.filterMap_cons]
-      cases ha : attrOfN cfg fields var with
+      cases hp : attrParamOf cfg fields var with
       | none => simpa [attrParamsN] using attrParamsN_get_none cfg fields t hnd.1
-      | some p => simp [Params.get_cons]
+      | some nv =>
+        simp only []
+        rw [Params.get_cons, attrParamOf_name hp]; simp
     · have hne : v.name ≠ var.name := by
         intro heq; exact hnd.1 (List.mem_map.2 ⟨var, hvt, heq.symm⟩)
       simp only [attrParamsN, List.filterMap_cons]
-      cases attrOfN cfg fields v with
+      cases hp : attrParamOf cfg fields v with
       | none => exact ih hnd.2 var hvt
-      | some p =>
-        simp only [Option.map_some]
-        rw [Params.get_cons]
+      | some nv =>
+        simp only []
+        rw [Params.get_cons, attrParamOf_name hp]
         simp only [hne, if_false]
         exact ih hnd.2 var hvt
 
-/-- the constructor argument of an attribute field -/
+/-- what `class_factory` needs of one dataclass field -/
+def FieldOK (P : Params) (fields : List (Str × Val)) (f : FieldInfo) : Prop :=
+  (f.init = true ∧ (P.get f.name = some (look fields f.name) ∨
+    (P.get f.name = none ∧ f.default = some (look fields f.name)))) ∨
+  (f.init = false ∧ f.default = some (look fields f.name))
+
+theorem classFactory_N (Γ : Ctx) {c : ClassId} {ci : ClassInfo} (hfind : Γ.find c = some ci)
+    (fields : List (Str × Val)) (P : Params)
+    (hnames : fields.map (·.1) = ci.fields.map (·.name)) (hnd : (ci.fields.map (·.name)).Nodup)
+    (h : ∀ f ∈ ci.fields, FieldOK P fields f) :
+    classFactory Γ c P = .ok (.obj c fields) := by
+  unfold classFactory
+  simp only [hfind]
+  have key : ∀ g : FieldInfo → Option (Str × Val),
+      (∀ f ∈ ci.fields, g f = some (f.name, look fields f.name)) →
+      (if ((ci.fields.map g).all Option.isSome) = true
+        then Except.ok (Val.obj c ((ci.fields.map g).filterMap id))
+        else Except.error (Err.parser "Failed to create")) = Except.ok (Val.obj c fields) := by
+    intro g hg
+    have := map_some_filterMap (fields := fields) g hg
+    rw [this.1, this.2, ← hnames, fields_eq_look (by rw [hnames]; exact hnd)]
+    rfl
+  apply key
+  intro f hf
+  rcases h f hf with ⟨hi, hc⟩ | ⟨hi, hd⟩
+  · rcases hc with hc | ⟨hc, hd⟩
+    · simp only [hi, hc, if_true]
+    · simp only [hi, hc, hd, if_true]
+  · simp only [hi, hd, Bool.false_eq_true, if_false]
+
+theorem field_of_varN {ci : ClassInfo} {var : XmlVar} (hfa : fieldAgreesN ci var = true)
+    (hnd : (ci.fields.map (·.name)).Nodup) {f : FieldInfo} (hf : f ∈ ci.fields)
+    (hname : var.name = f.name) :
+    ci.fields.find? (·.name = var.name) = some f ∧ f.init = var.init ∧
+      defaultAgrees var.default f.default = true := by
+  obtain ⟨f', hf', hi, hd⟩ := fieldAgreesN_iff.1 hfa
+  have := find?_of_nodup hnd hf
+  rw [← hname] at this
+  rw [this] at hf'
+  cases hf'
+  exact ⟨this, hi, hd⟩
+
+/-- the constructor argument of a field of `get_attribute_vars()` -/
 theorem attr_field_okN {ft : Feat} {e : BEnv} {Γ : Ctx} {m : XmlMeta} {ci : ClassInfo}
-    {fields : List (Str × Val)} (cfg : SerCfg) {var : XmlVar} (hv : FN.attrVarOK ft m ci var = true)
-    (hx : FN.attrValOK e Γ ci var (look fields var.name) = true)
+    {fields : List (Str × Val)} (cfg : SerCfg) {var : XmlVar}
+    (hv : FN.attrVarOK ft m ci var = true ∨ (m.anyAttributes = [var] ∧ mapVarOK ci var = true))
+    (hx : FN.attrValOK e Γ m ci var (look fields var.name) = true)
     (hnd : (ci.fields.map (·.name)).Nodup) {f : FieldInfo} (hf : f ∈ ci.fields)
     (hname : var.name = f.name) {P : Params}
-    (hP : P.get var.name = (attrOfN cfg fields var).map (fun _ => look fields var.name)) :
-    f.init = true ∧ (P.get f.name = some (look fields f.name) ∨
-      (P.get f.name = none ∧ f.default = some (look fields f.name))) := by
-  simp only [FN.attrVarOK, Bool.and_eq_true] at hv
-  obtain ⟨⟨_, hkind⟩, hfa⟩ := hv
-  obtain ⟨hfind, hi, hd⟩ := field_of_var hfa hnd hf hname
-  refine ⟨hi, ?_⟩
-  rw [← hname, hP]
-  cases ha : attrOfN cfg fields var with
-  | some ds => exact Or.inl rfl
-  | none =>
-    refine Or.inr ⟨rfl, ?_⟩
+    (hP : P.get var.name = (attrParamOf cfg fields var).map (·.2)) :
+    FieldOK P fields f := by
+  rcases hv with hv | ⟨_, hmv⟩
+  · simp only [FN.attrVarOK, Bool.and_eq_true, Bool.or_eq_true] at hv
+    obtain ⟨⟨⟨hrest, hkind⟩, hfix⟩, hfa⟩ := hv
+    have hA : var.isAttribute = true := hrest.1.1.1.1.1.1.1
+    have hnm := isAttributes_false_of_attr hA
+    obtain ⟨hfind, hfi, hd⟩ := field_of_varN hfa hnd hf hname
     unfold FN.attrValOK at hx
-    cases hpt : primTypeOf var with
-    | none => simp [hpt] at hx
-    | some t =>
-      simp only [hpt] at hx hkind
-      by_cases htok : var.tokens = true
-      · simp only [htok, if_true, decide_eq_true_eq] at hx hkind
-        obtain ⟨ys, hys, _⟩ := toks_of hx
-        cases ys with
-        | nil =>
-          rw [hkind] at hd
-          rw [hys, defaultAgrees_list hd]
-        | cons y l => simp [attrOfN, hys] at ha
-      · have htok' : var.tokens = false := by simpa using htok
-        simp only [htok', Bool.false_eq_true, if_false] at hx
-        split at hx
-        · rename_i hlook
-          obtain ⟨f', hf', hdn⟩ := fdNone_iff.1 hx
-          rw [hfind] at hf'; cases hf'
-          rw [hlook, hdn]
-        · rename_i p hlook
-          simp only [attrOfN, hlook] at ha
-          split at ha
-          · rename_i hc
-            simp only [Bool.and_eq_true] at hc
-            have := defaultEq_prim hc.2
-            rw [this] at hd
-            rw [hlook, defaultAgrees_val hd]
-          · cases ha
-        · cases hx
+    simp only [hnm, Bool.false_eq_true, if_false, Bool.and_eq_true, Bool.or_eq_true] at hx
+    obtain ⟨hfx, hx⟩ := hx
+    cases hi : var.init with
+    | false =>
+      -- a fixed attribute: the field keeps its default, which is the value
+      have hfv : fixedVal var (look fields var.name) = true := by
+        rcases hfx with h | h
+        · rw [hi] at h; cases h
+        · exact h
+      obtain ⟨p, hlook, hdef⟩ := fixedVal_iff.1 hfv
+      rw [hdef] at hd
+      exact Or.inr ⟨by rw [hfi, hi], by rw [← hname, hlook, defaultAgrees_val hd]⟩
+    | true =>
+      refine Or.inl ⟨by rw [hfi, hi], ?_⟩
+      rw [← hname, hP]
+      simp only [attrParamOf, hnm, Bool.false_eq_true, if_false, hi, if_true, Option.map_map]
+      cases ha : attrOfN cfg fields var with
+      | some ds => exact Or.inl rfl
+      | none =>
+        refine Or.inr ⟨rfl, ?_⟩
+        cases hpt : primTypeOf var with
+        | none => simp [hpt] at hx
+        | some t =>
+          simp only [hpt] at hx hkind
+          by_cases htok : var.tokens = true
+          · simp only [htok, if_true, decide_eq_true_eq] at hx hkind
+            obtain ⟨ys, hys, _⟩ := toks_of hx
+            cases ys with
+            | nil =>
+              rw [hkind] at hd
+              rw [hys, defaultAgrees_list hd]
+            | cons y l => simp [attrOfN, hys] at ha
+          · have htok' : var.tokens = false := by simpa using htok
+            simp only [htok', Bool.false_eq_true, if_false] at hx
+            split at hx
+            · rename_i hlook
+              obtain ⟨f', hf', hdn⟩ := fdNone_iff.1 hx
+              rw [hfind] at hf'; cases hf'
+              rw [hlook, hdn]
+            · rename_i p hlook
+              simp only [attrOfN, hlook] at ha
+              split at ha
+              · rename_i hc
+                simp only [Bool.and_eq_true] at hc
+                have := defaultEq_prim hc.2
+                rw [this] at hd
+                rw [hlook, defaultAgrees_val hd]
+              · cases ha
+            · cases hx
+  · simp only [mapVarOK, Bool.and_eq_true] at hmv
+    obtain ⟨⟨hmap, _⟩, hfield⟩ := hmv
+    have hff := find?_of_nodup hnd hf
+    rw [← hname] at hff
+    rw [hff] at hfield
+    simp only [Bool.and_eq_true] at hfield
+    obtain ⟨hfi, hfd⟩ := hfield
+    have hdef : f.default = some (.attrs []) := by
+      cases hd : f.default with
+      | none => simp [hd] at hfd
+      | some w =>
+        cases w with
+        | attrs l => cases l <;> simp [hd] at hfd ⊢
+        | _ => simp [hd] at hfd
+    unfold FN.attrValOK at hx
+    simp only [hmap, if_true] at hx
+    refine Or.inl ⟨hfi, ?_⟩
+    rw [← hname, hP]
+    cases hlook : look fields var.name with
+    | attrs kv =>
+      cases kv with
+      | nil => exact Or.inr ⟨by simp [attrParamOf, hmap, mapEntries, hlook], by rw [hdef]⟩
+      | cons a l => exact Or.inl (by simp [attrParamOf, hmap, mapEntries, hlook])
+    | _ => rw [hlook] at hx; simp [mapValOK] at hx
 
 /-! ### emitted pairs and their trees -/
 
